@@ -469,13 +469,37 @@ def dos_smear_unit(u, res):
     want_p = [[sum(wn[q] * symnp.SR(gs[(k * nq + q) * nb + b]) * symnp.SR(es[(q * npdos + j) * nb + b]) for q in range(nq) for b in range(nb)) for k in range(len(fpts))] for j in range(npdos)]
     v, m, idx = assert_equal(res, "TotalDos (smearing) == sum_q w_q sum_b g(f_qb - f) / sum_q w_q for all amplitudes", symnp.unwrap(tdos), symnp.unwrap(symnp.symarray(want_t)), Abox, tol=1e-10)
     if v == "sat":
-        res.unconfirmed.append({"key": key + ":total", "what": "smearing total DOS differs from the weighted, normalised sum of the smearing function"})
+        ok, what = replay_dos_smear()
+        (res.violations if ok else res.unconfirmed).append({"key": key + ":total", "what": what, "replay": {}})
     v, m, idx = assert_equal(res, "ProjectedDos (smearing) == sum_q w_q sum_b |e|^2 g / sum_q w_q for all amplitudes and coefficients", symnp.unwrap(pdos), symnp.unwrap(symnp.symarray([t for row in want_p for t in row])), Abox, tol=1e-10, relax=True)
     if v == "sat":
-        res.unconfirmed.append({"key": key + ":projected", "what": "smearing projected DOS differs from the weighted sum of |e|^2 g"})
+        ok, what = replay_dos_smear()
+        (res.violations if ok else res.unconfirmed).append({"key": key + ":projected", "what": what, "replay": {}})
     res.twins.append({"name": "smear twin", "verdict": "sat" if any(isinstance(t, z3.ExprRef) for t in symnp.unwrap(pdos)) else "unsat"})
     res.samples.append({"unit": res.unit, "symbols": len(gs) + len(es)})
     return res
+
+
+@symnp.outside_session
+def replay_dos_smear():
+    """concrete: smearing total / projected DOS against sum_q w_q sum_b [|e|^2] g(f_qb - f) / sum_q w_q"""
+    import phonopy.phonon.dos as dosm
+    rng = np.random.default_rng(8)
+    nq, nb = 3, 6
+    weights = np.array([1, 2, 3], dtype="int64")
+    freqs = np.sort(rng.uniform(0.5, 6, (nq, nb)), axis=1)
+    ev = np.array([np.linalg.qr(rng.normal(size=(nb, nb)) + 1j * rng.normal(size=(nb, nb)))[0] for _ in range(nq)])
+    fpts = np.array([1.5, 3.0, 4.4]); sigma = 0.3
+    mesh = FakeMeshObj(freqs, weights, eigenvectors=ev)
+    g = lambda x: np.exp(-x * x / (2 * sigma * sigma)) / (sigma * np.sqrt(2 * np.pi))
+    td = dosm.TotalDos(mesh, sigma=sigma); td._frequency_points = fpts; td.run()
+    want_t = np.array([sum(weights[q] * g(freqs[q] - f).sum() for q in range(nq)) / weights.sum() for f in fpts])
+    d1 = float(np.abs(np.array(td.dos) - want_t).max())
+    pd = dosm.ProjectedDos(mesh, sigma=sigma); pd._frequency_points = fpts; pd.run()
+    e2 = np.abs(ev) ** 2
+    want_p = np.array([[sum(weights[q] * ((e2[q, 3 * a] + e2[q, 3 * a + 1] + e2[q, 3 * a + 2]) * g(freqs[q] - f)).sum() for q in range(nq)) / weights.sum() for f in fpts] for a in range(nb // 3)])
+    d2 = float(np.abs(np.array(pd.projected_dos) - want_p).max())
+    return max(d1, d2) > 1e-10, "smearing DOS differs from the weight-normalised sum of Gaussians: total by %.3g, projected by %.3g" % (d1, d2)
 
 
 def _dos_mesh(gid):
@@ -562,6 +586,7 @@ def dos_tetra_unit(u, res):
     return res
 
 
+@symnp.outside_session
 def replay_dos_tetra(gid, fpts, ev):
     import phonopy.phonon.dos as dosm
     ph = _dos_mesh(gid)
